@@ -67,6 +67,14 @@ CHECKS = {
             "Legendre remainder bound, guarded slope and add-a-degree rules; library evaluator vs own evaluator.",
             "Trusts mpmath; local coordinates are defined by the library's own map measured as affine; both time directions of the Coriolis term accepted (L3 uses the reversed one, Note N-1); slope rules asserted only where the exact remainder is asymptotic.",
             "DESIGN.md §4 C07"),
+    "C09": ("exploration",
+            "generated amplitude ladders (batch-RMS) for the round-trip and energy scaling laws r^(N+1) against a 40-digit energy oracle and an own evaluator of H_cm; constructed section points with a unique-root precheck",
+            "Catalogue systems and generated mu x L1/L2 x degree 4/6 (quick) 4..10 (thorough): for batches of generated directions on S^3 the round trip to_cm(to_synodic(p)) - p and "
+            "[E_exact(to_synodic(p)) - E_exact(L)]/gamma^2 - H_cm,N(p) are measured on radius ladders down to the rounding floor and must decay with slope >= N+1-0.5 (a sign or "
+            "scaling error in one modal column gives slope 2); section conversion of constructed points lies on the section, reproduces the plane point and sits on the energy level "
+            "within the Brent tolerance.",
+            "Law asserted as: best of the <=3 finest above-floor log-ratios of the batch RMS; degrees 8 and 10 only in the thorough tier; the hyperbolic offset and the dynamical push-forward are not covered (outside the statement).",
+            "DESIGN.md §4 C09"),
     "C10": ("exploration",
             "property-based testing (Hypothesis) against reference flows of the unwrapped field at signed times; reject-or-correct oracle on generated descending / non-uniform / zero-span grids",
             "Generated (CR3BP kernel and System.propagate, 42-D variational with selective flip, polynomial Hamiltonian, autonomous and time-dependent user rhs) x method "
@@ -84,6 +92,14 @@ CHECKS = {
             "residual within derived bounds, filtered crossings skipped, no hit => (tf, flow(tf)).",
             "Precondition enforced by construction: crossings more than 2.5 steps apart and transversal; forward time and terminal=True only; planar linear systems only; integration accuracy itself is C02/C16.",
             "DESIGN.md §4 C11"),
+    "C12": ("exploration",
+            "Hypothesis-generated manifold configurations on library-corrected L1/L2 halo/Lyapunov orbits vs an independent SciPy/SymPy Floquet oracle (exact monodromy re-integrated at each seed's own closest orbit point, conditioning-derived tolerances)",
+            "For corrected hyperbolic orbits and generated (stable/unstable, positive/negative, step, displacement, integration fraction, method, energy_tol) the public "
+            "orbit.manifold(...).compute(...) is run; for each seed the oracle finds the closest orbit point on its own dense solution, re-integrates the exact monodromy there and "
+            "requires the displacement to lie in span{f, v_s/u} with |beta|*||v_pos|| = displacement, sign fixed by the requested direction; stable branches have non-positive "
+            "decreasing times, unstable increasing; retained trajectories keep the oracle's Jacobi constant within energy_tol and are flows of their seeds.",
+            "Seeds sampled (<= 8 per manifold quick); 4 orbits quick / 60 thorough; |lambda_u| 8e2-3e3; halo and Lyapunov only; the along-flow component of the displacement is unconstrained by construction.",
+            "DESIGN.md §4 C12"),
     "C13": ("fault_enumeration",
             "exhaustive fault-sequence enumeration (accept/reject/raise scripts) on the real predictor-corrector backend against a reference loop model + Hypothesis long scripts + end-to-end families re-checked by independent SciPy propagation",
             "Every corrector outcome string over {accept, reject, raise} up to length 7 (quick) / 9 (thorough) x a 1536-configuration grid (step sign/magnitude, target "
@@ -93,6 +109,14 @@ CHECKS = {
             "on an independent CR3BP field.",
             "Outcome strings and grid enumerated exhaustively; longer scripts, float steps and end-to-end families are sampled. Model assumes no step growth after an accept; members exactly on the boundary count as inside.",
             "DESIGN.md §4 C13"),
+    "C14": ("exploration",
+            "generated map problems per precomputed centre manifold; own polynomial evaluator + DOP853 return reference; injective set-wise predecessor matching under one direction rule; bit-for-bit partition sweep (workers x numba threads x chunk); dt/2 envelope",
+            "Per shard one centre manifold; generated (energy, section q2/p2/q3/p3, seeding strategy, n_iter, fixed 4/6/8 or symplectic 2/4/6, dt, n_workers, numba threads, chunk): "
+            "section coordinate exactly 0; |H_cm - E| within a derived dt-bound that shrinks >= 4x under dt/2; every returned point is the next crossing (own reduced-flow "
+            "integration with terminal event) of a distinct seed-or-returned point in one crossing direction; points are the labelled projection of states; the multiset of returned "
+            "states is bit-identical for all worker/thread/chunk partitions.",
+            "Worker/thread counts and chunk sizes are owned by the harness, not interleavings; symplectic tolerance bounded by Tao's estimate with the effective order of the open C16 finding; fresh map object per configuration (the compute cache ignores option values, see C20).",
+            "DESIGN.md §4 C14"),
     "C15": ("exploration",
             "Hypothesis grammar-generated section-value sequences on an exact dyadic realisation vs. an event-matching reference detector; analytic refinement ladders (bounds + observed order); engine/backend differential",
             "Sample level: generated g-sequences (strict signs, exact zeros, |g|<tol, touch-and-return, repeated zeros, crossing on a sample, first/last segment) realised "
